@@ -14,11 +14,19 @@ Each change was written by a fresh sub-agent that was given only the text of one
 (nothing from /verif), asked for a change that keeps the 144 repository tests passing, needs something specific to
 manifest, and comes with a demonstration. Each was confirmed with `tools/seed_eval.py` (patch applies to HEAD, tests
 pass with it, demo exits 0 without and non-zero with it) before being kept. %d changes are kept; %d were caught by
-the check of their property at the first run, %d are caught now (by the listed checks, quick tier, VERIF_SEED=1).
-The misses were the most useful output of the exercise: almost all of them were *state* bugs (a cache or flag that
-survives an update, an object shared between two consumers, a second evaluation of the same object) that a check
-building a fresh object per generated case cannot see; the corresponding checks were extended with histories on one
-object, shared-object specifications and the routes named in the last column.
+the check of their property at the first run, %d are caught now (by the listed checks, quick tier, VERIF_SEED=1); the
+two that are not (C13-4, C04-7) are deliberately not claimed (see their history column).
+At the end of the work every kept change was evaluated once more against the checks named in its `caught_by`
+(`tools/seed_recheck.sh`, on the final /repo HEAD): 232 of the 234 claimed changes were still caught; two (C09-9,
+C11-2) had been caught by chance draws that later generator changes removed, and the checks were made to reach their
+triggers deterministically. 13 patches no longer applied after `fix:` commits rewrote the lines they touch and were
+carried over by hand (`patch.orig.diff` keeps the originals).
+The misses were the most useful output of the exercise. In the first rounds almost all of them were *state* bugs (a
+cache or flag that survives an update, an object shared between two consumers, a second evaluation of the same
+object) that a check building a fresh object per generated case cannot see; later rounds were dominated by *regions
+and routes* nobody had generated: batch shapes of every input, numerically extreme but valid parameters, default-dtype
+dependent buffers, rarely used options and file formats, error paths. The corresponding checks were extended with
+histories on one object, shared-object specifications and the routes named in the last column.
 
 | name | property | needs, in order to manifest | caught by | history |
 |---|---|---|---|---|
